@@ -63,6 +63,14 @@ func (d *DateTime) UnmarshalJSON(bytes []byte) error {
 	datetime, err := time.ParseInLocation("2006-01-02 15:04:05", s, time.Local)
 	if err != nil {
 		datetime, err = time.ParseInLocation("2006-01-02 15:04:05 MST", s, time.Local)
+		if err == nil && len(s) > 19 && datetime.Format("2006-01-02 15:04:05") != s[:19] {
+			// ... a zone abbreviation shared by standard and daylight saving time (e.g. SAST in 1943) is resolved
+			//     with the wrong offset near a transition, which shifts the date/time by the difference
+			if civil, errx := time.ParseInLocation("2006-01-02 15:04:05", s[:19], time.Local); errx == nil {
+				datetime = civil
+			}
+		}
+
 		if err != nil {
 			// ... time zones without an abbreviation are formatted as a numeric offset e.g. +0545
 			datetime, err = time.ParseInLocation("2006-01-02 15:04:05 -0700", s, time.Local)
